@@ -331,7 +331,7 @@ def run_c05(ctx):
 
 PIPE_QUICK = [('fork', 2, 0, 1), ('fork', 2, 1, 1), ('fork', 2, 3, 1), ('split', 2, 1, 1), ('split', 2, 3, 1), ('split', 3, 2, 1),
               ('splitjoin', 2, 3, 1), ('splitjoin', 2, 0, 1), ('fork', 3, 2, 2)]
-PIPE_THOROUGH = [(m, k, n, c) for m in ('fork', 'split', 'splitjoin') for k in (2, 3) for n in range(0, 5) for c in (1, 2)]
+PIPE_THOROUGH = [(m, k, n, c) for m in ('fork', 'split', 'splitjoin') for k in (2, 3, 4) for n in range(0, 7) for c in (1, 2, 3)]
 
 
 def run_c06(ctx):
